@@ -67,6 +67,8 @@ class NtTriplesYielder(BaseTriplesYielder):
     def _look_for_last_index_of_uri_token(self, target_str, first_index):
         target_substring = target_str[first_index:]
         index_sub = target_substring.find(">")
+        if index_sub < 0:  # No closing corner: the token reaches the end of the line
+            return len(target_str) - 1
         return index_sub + (len(target_str) - len(target_substring))
 
     def _look_for_last_index_of_bnode_token(self, target_str, first_index):
@@ -86,8 +88,8 @@ class NtTriplesYielder(BaseTriplesYielder):
         the end of the line, except for the dot that closes the statement.
         """
         for i in range(len(target_substring)):
-            if target_substring[i] in " \t":
-                # "_:b1. # comment": the dot that closes the statement is not part of the token
+            if target_substring[i] in " \t#":
+                # "_:b1. # comment", "_:b1.#comment": the dot that closes the statement is not part of the token
                 return i - 1 if i > 0 and target_substring[i - 1] == "." else i
         return len(target_substring) - 1 if target_substring.endswith(".") else len(target_substring)
 
